@@ -92,6 +92,8 @@ def comment_key(rng):
 
 def comment_val(rng):
     n = rng.choice([0, 1, 3, 8, 20, 60])
+    if rng.random() < 0.02:
+        n = rng.choice([1000, 1023, 1024, 1025, 1500, 3000, 9000])     # release notes in a comment
     v = "".join(rng.choice(VAL_ALPHA) for _ in range(n))
     return v.strip()
 
